@@ -1080,6 +1080,12 @@ def check_c09(prog, pdesc, rs, r, res, ledger, case, handles):
                         got = r.get_substance_used(s)                     # every default
                     elif unit_arg is None:
                         got = r.get_substance_used(substance=s, timeframe=tf, destinations='plates' if dests is None else tuple(handles[nme] for nme in dests))
+                    elif dests is not None and rnd.random() < 0.3:
+                        # destinations is any iterable: a one-shot one (a generator, map, iter) names the same objects
+                        M.bucket('C09/destinations_one_shot_iterable')
+                        one_shot = rnd.choice([lambda: (handles[nme] for nme in dests), lambda: map(handles.get, dests),
+                                               lambda: iter([handles[nme] for nme in dests]), lambda: {handles[nme].name: handles[nme] for nme in dests}.values()])
+                        got = r.get_substance_used(s, tf, unit, one_shot())
                     else:
                         got = r.get_substance_used(s, tf, unit, 'plates' if dests is None else [handles[nme] for nme in dests])
                     gexc = None
